@@ -8,7 +8,30 @@ ROOT = os.path.dirname(os.path.dirname(os.path.abspath(__file__)))
 
 SIMNOTE = 'Trusted base of the simulator (DESIGN.md §3.5): reliable FIFO channels of pickled messages, the ~25-line registration shim mirroring spawn_workers/connect_to_managers, fail-stop crashes, and that workers share no state except through messages. Real OS sockets, process spawning and the OS thread scheduler are replaced, not tested.'
 
+COMPNOTE = 'The public bqskit.compile is executed with a real Compiler object whose runtime is the deterministic simulator (DESIGN.md §3.5); real worker processes are not started because the attached runtime binds a fixed port (one instance per machine). Distance budget (R+1)*4*sqrt(2*eps)+1e-7 with R read from the pass data of the same call. A compile() exceeding 75 s (quick) / 900 s (thorough) is abandoned and counted as inconclusive, never as a violation.'
+
 CHECKS = {
+    'C01': dict(
+        category='exploration',
+        text='Generated (circuit, machine model, optimization level, max_synthesis_size, synthesis_epsilon, seed, workers, schedule) cases: circuits of 2-5 (thorough 7) qudits over 1/2/3-qudit gates with special and generic angles, Haar unitary gates, barriers, pre-blocked CircuitGates and terminal measurements, qutrit circuits; models with every graph shape, machine wider than the circuit and ten native gate sets. compile(..., with_mapping=True) output is judged by the mapping-aware embedding oracle (all embedded basis states simulated independently; equality up to one global phase within the synthesis budget; no leakage outside the final mapping), mappings must be injective into the machine, and measurement placeholders must sit last on the physical qudits holding the measured logical qudits. A documented-valid input that compile() fails on is a violation keyed by the failing frame.',
+        design_ref='DESIGN.md §4 C01, §3.3',
+        note=COMPNOTE,
+        technique='property-based testing with Hypothesis: end-to-end compile() against an independent mapping-aware simulation oracle',
+    ),
+    'C02': dict(
+        category='exploration',
+        text='(a) compile() outputs for circuit, unitary, state and state-system inputs over generated models are judged by an independent predicate for the three conditions of the property (model width/radixes, only native gates apart from placeholders, every multi-qudit location pairwise coupled), and MachineModel.is_compatible must agree with that predicate. (b) Thousands of synthetic circuits built to satisfy a generated model and then mutated to break exactly one condition (foreign 1- or 2-qudit gate, uncoupled pair, wrong radix, too wide, narrower, or none) exercise the agreement clause in both directions.',
+        design_ref='DESIGN.md §4 C02',
+        note=COMPNOTE + ' Placeholders are set aside as the property states. Three open findings are reported as KNOWN-FINDING.',
+        technique='property-based testing with Hypothesis: independent validity predicate + mutation-generated negatives for the is_compatible agreement',
+    ),
+    'C03': dict(
+        category='exploration',
+        text='Generated targets (Haar / permutation / diagonal / identity / Clifford / near-identity unitaries, Haar / basis / GHZ / W states, state systems of 1..dim pairs; qubits and qutrits; 1-2 qudits quick, up to 3 thorough; single inputs and lists of 2-4 pairwise-distinguishable inputs) x models x levels: the circuit returned by compile() is simulated independently under the returned mappings and must reach the unitary (distance), the state (infidelity) or every listed pair of the system within the budget; list results must come back one per input in order.',
+        design_ref='DESIGN.md §4 C03',
+        note=COMPNOTE + ' Open findings about one-qudit state/system targets are reported as KNOWN-FINDING.',
+        technique='property-based testing with Hypothesis: synthesis results judged by an independent simulator against the requested target',
+    ),
     'C04': dict(
         category='exploration',
         text='Model-based testing of histories of public Circuit editing calls (37-call alphabet, selectors resolved against the live state so every argument value incl. negative/out-of-range indices occurs): after every call the flattened per-qudit operation sequences of the real circuit are compared with those a list-of-cycles reference semantics predicts from the pre-call grid and the documented effect of the call; documented positional facts and return values, unitary invariance of structure-only calls, inverse-composes-to-identity and atomicity of rejected calls are checked as well. Failing histories are shrunk by Hypothesis.',
@@ -37,12 +60,33 @@ CHECKS = {
         note=SIMNOTE + ' Line-level interleavings are explored with at most 3 pre-emptions, the pre-empting thread running whole handlers.',
         technique='schedule-exploring property-based testing on a deterministic runtime simulator (Hypothesis-generated programs/schedules/pre-emptions + exhaustive single-pre-emption enumeration)',
     ),
+    'C08': dict(
+        category='exploration',
+        text='Generated circuits (width 2-20, up to 300 operations, 1/2/3-qudit gates, barriers/measurements/resets, already-blocked input, qutrits and mixed radixes) x block sizes 2-6 x every partitioner (Quick, Scan, Clustering, Greedy, GroupSingleQuditGate, Quick+ExtendBlockSize, GTQCP, TDAG), driven in-process. Oracle, read through the grid only: block width bound, multiset of operations with bit-identical parameters, per-qudit operation sequences of the unfolded output equal to the input\'s (exact at any width, no simulation), no placeholder inside a block and placeholder order unchanged; unitary/state comparison as a redundant check for small dimensions.',
+        design_ref='DESIGN.md §4 C08, §3.2',
+        note='Trusted: vt/oracle/trace.py, refsim. Documented domain restrictions (no gate wider than the block for Scan/Clustering/GTQCP/TDAG) are respected by construction. Open findings (Greedy, placeholders in five partitioners, Quick with multi-qudit barriers) are reported as KNOWN-FINDING and their triggers excluded from generation after counting, with one dedicated case each.',
+        technique='property-based testing with Hypothesis against a trace-equivalence (per-qudit projection) oracle',
+    ),
     'C09': dict(
         category='exploration',
         text='Generated circuits (2-8 qudits, 3-qudit gates, barriers, partitioned blocks) x connected coupling graphs (line/ring/star/grid/tree/tree+edges, machine >= circuit) x workflows [SetModel, Greedy/Trivial/Static placement, GeneralizedSabre layout (1-3 passes), routing, ApplyPlacement] with generated algorithm parameters, driven in-process and judged stage by stage: placement connected and injective, layout touches neither circuit nor mappings, routed circuit = input + swaps only with the swap product equal to the recorded final mapping, every multi-qudit operation on physically connected qudits, and the mapping-aware embedding oracle (state-vector simulation of all embedded basis states, one global phase, no leakage) under initial/final mapping. The thorough tier adds permutation-aware (PAM) layout/routing on a real runtime with pre-synthesised permutations.',
         design_ref='DESIGN.md §4 C09, §3.3',
         note='Trusted: vt/oracle/embed.py + refsim, trace equivalence. SABRE passes are driven in-process (they never await). PAM arm needs a real runtime per shard (private ports) and a synthesis tolerance derived from measured per-block errors.',
         technique='property-based testing with Hypothesis against an independent mapping-aware simulation oracle and structural postconditions',
+    ),
+    'C10': dict(
+        category='exploration',
+        text='A catalogue of 38 rows covering 44 rewriting passes (rule-based rewrites, single- and two-qudit retargeting, gate-removal passes, QSD / Block-ZXZ / MGD / Walsh / diagonal extraction, QFAST / QPredict / LEAP / QSearch / PAS, conversion and utility passes, read-only passes): each row has an option strategy, a domain generator rich in the gate it rewrites, an exactness class and a postcondition. The output unitary is compared with the input\'s by the independent simulator (1e-7 exact, 1e-6 analytic, (R+1)*4*sqrt(2 eps) numerical) and the advertised postcondition is checked (source gate gone, only requested gates introduced, gate count not increased, filters honoured, width/radixes unchanged). Exported passes without a row are reported as labels.',
+        design_ref='DESIGN.md §4 C10',
+        note='Passes that use the runtime run on a per-shard attached server started on private ports; a 75 s wall-clock guard labels hangs as inconclusive. Open findings are reported as KNOWN-FINDING and their triggers excluded from generation after counting.',
+        technique='catalogue-driven property-based testing with Hypothesis: refsim distance oracle + per-pass postconditions',
+    ),
+    'C11': dict(
+        category='exploration',
+        text='Generated partitioned circuits x collection filters x every replace filter (ten string methods and callables) x scripted body passes (identity, equivalent rewrite, shrink, grow, perturb by a known distance, fail, record, re-map) selected per block through the documented pass-down keys, inside generated nestings (depth <= 3) of IfThenElse / While / DoWhile / DoThenDecide / ParallelDo / Workflow / ForEachBlockPass with scripted predicates, executed through Compiler.compile on the deterministic simulator (1-3 workers, drawn schedule). A reference interpreter of the control tree predicts the acceptable outcomes: record sequences, which blocks the body ran on and what sub-circuit/sub-model each saw, the output circuit (trace + unitary), every PassData field after rejected or unselected branches, ForEach bookkeeping and the error bound data.error >= d - 4 d^2. A second family judges the shipped predicates against their docstrings.',
+        design_ref='DESIGN.md §4 C11',
+        note=SIMNOTE + ' Where a replace-filter docstring is silent the oracle follows the implementation (stated in the module ASSUMPTIONS).',
+        technique='model-based property testing with Hypothesis: reference interpreter of control-flow pass trees on a deterministic runtime simulator',
     ),
     'C12': dict(
         category='exploration',
